@@ -5,7 +5,7 @@ CONSTANTS
   Lib <- LibDef
   MaxBlocks = 2
   Checks = {0, 1, 2, 3, 4, 5, 6, 7, 8, 9, 10, 11, 12, 13, 14, 15}
-  Pids = {1, 2, 3, 4, 5, 6, 7, 8}
+  Pids = {1, 2, 3, 4, 5, 6, 7, 8, 9}
   Pids2 = {1, 2, 3, 4, 5, 7}
 INVARIANTS PadLemma AcceptsWellFormed AcceptImpliesIntegrity UnsupportedRefused SinkOnlyVerified MutationsAreCaught NoWrap Emit
 CHECK_DEADLOCK FALSE
